@@ -1,5 +1,5 @@
 (* Lemmas for C07 (statements of the property theorems are in Props/C07.v). *)
-From Coq Require Import ZArith NArith List Bool Lia Sorted.
+From Coq Require Import ZArith NArith List Bool Lia Sorted Permutation.
 From Coq Require Import ZifyBool ZifyNat ZifyN.
 From KV Require Import Common.Verdict Model.C07.
 Import ListNotations.
@@ -177,7 +177,7 @@ Lemma sortN_sorted l : NoDup l -> StronglySorted N.lt (sortN l).
 Proof.
   induction 1 as [|a l Hn Hnd IH]; [constructor|].
   unfold sortN in *. cbn [fold_right]. apply insertN_sorted; [exact IH|].
-  intros Hin. apply In_sortN in Hin. auto.
+  intros Hin. apply Hn. apply (proj1 (In_sortN l a)). exact Hin.
 Qed.
 Lemma In_nodupN l x : In x (nodupN l) <-> In x l.
 Proof.
@@ -261,18 +261,6 @@ Proof.
   apply memN_In in Hm. rewrite Hm. reflexivity.
 Qed.
 
-Lemma same_wallet_key {K} (keygen : list Z -> Z -> K) size t seed i j ex ops_i ops_j s_i s_j :
-  memN i ex = false -> memN j ex = false ->
-  let mi := execute_member size t seed i ex ops_i s_i in
-  let mj := execute_member size t seed j ex ops_j s_j in
-  keygen (party_keys mi) (honest_threshold (mb_group mi) - 1)%Z
-  = keygen (party_keys mj) (honest_threshold (mb_group mj) - 1)%Z.
-Proof.
-  intros Hi Hj mi mj.
-  destruct (same_party_set size t seed i j ex ops_i ops_j s_i s_j Hi Hj) as [E [_ [Ek _]]].
-  fold mi mj in E, Ek. rewrite Ek, E. reflexivity.
-Qed.
-
 Lemma excluded_listed size t seed i ex ops s :
   (size <= 255)%nat -> memN i ex = false ->
   let g := mb_group (execute_member size t seed i ex ops s) in
@@ -300,7 +288,7 @@ Proof.
     + reflexivity.
 Qed.
 
-Lemma positions_spec ops : forall s k o,
+Lemma positions_spec (ops : list N) : forall (s : nat) (k o : N),
   In (k, o) (combine (map N.of_nat (seq s (length ops))) ops) <->
   exists i, nth_error ops i = Some o /\ k = N.of_nat (s + i).
 Proof.
@@ -386,7 +374,7 @@ Proof.
   induction l as [|a l IH]; intros seen m; cbn [app dedup].
   - cbn [senders map memN existsb]. rewrite orb_false_r. destruct (memN (m_sender m) seen); reflexivity.
   - destruct (memN (m_sender a) seen) eqn:E; [apply IH|].
-    rewrite IH. cbn [app senders map]. f_equal. rewrite !memN_cons.
+    rewrite IH. cbn [app]. unfold senders. cbn [map]. rewrite !memN_cons.
     destruct (N.eqb (m_sender m) (m_sender a)), (memN (m_sender m) seen),
       (memN (m_sender m) (map m_sender (dedup (m_sender a :: seen) l))); reflexivity.
 Qed.
@@ -426,6 +414,487 @@ Proof.
 Qed.
 Lemma partyid_foreign seed key : (key < seed)%Z -> to_member_index seed key = 0.
 Proof. intros H. unfold to_member_index. destruct (Z.gtb_spec seed key); [reflexivity|lia]. Qed.
+
+(* ================================================================== property-level lemmas *)
+Definition not_excluded (size : nat) (ex : list N) : list N :=
+  filter (fun m => negb (memN m ex)) (map N.of_nat (seq 1 size)).
+
+Lemma party_set_exact size t seed i ex ops s :
+  (size <= 255)%nat -> memN i ex = false ->
+  let mb := execute_member size t seed i ex ops s in
+  operating (mb_group mb) = not_excluded size ex
+  /\ party_keys mb = map (party_key seed) (not_excluded size ex)
+  /\ StronglySorted Z.lt (party_keys mb)
+  /\ (1 <= i <= N.of_nat size -> own_key mb = Some (party_key seed i) /\ In (party_key seed i) (party_keys mb)).
+Proof.
+  intros Hs Hi mb.
+  assert (Eo : operating (mb_group mb) = not_excluded size ex) by (apply operating_exact; assumption).
+  destruct (party_keys_spec size mb (execute_member_wf size t seed i ex ops s Hs)) as [Ek Sk].
+  change (mb_seed mb) with seed in Ek.
+  split; [exact Eo|]. split; [rewrite Ek, Eo; reflexivity|]. split; [exact Sk|].
+  intros Hr.
+  assert (Hin : In i (not_excluded size ex)).
+  { apply filter_In. split; [apply In_range; exact Hr | rewrite Hi; reflexivity]. }
+  split.
+  - unfold own_key. rewrite Eo. change (mb_id mb) with i. change (mb_seed mb) with seed.
+    rewrite (proj2 (memN_In _ _) Hin). reflexivity.
+  - rewrite Ek, Eo. apply in_map. exact Hin.
+Qed.
+
+Lemma same_wallet_key (K : Type) (keygen_run : list Z -> Z -> K -> Prop) :
+  (forall ps thr k1 k2, keygen_run ps thr k1 -> keygen_run ps thr k2 -> k1 = k2) ->
+  forall size t seed i j ex ops_i ops_j s_i s_j ki kj,
+    memN i ex = false -> memN j ex = false ->
+    let mi := execute_member size t seed i ex ops_i s_i in
+    let mj := execute_member size t seed j ex ops_j s_j in
+    keygen_run (party_keys mi) (honest_threshold (mb_group mi) - 1)%Z ki ->
+    keygen_run (party_keys mj) (honest_threshold (mb_group mj) - 1)%Z kj ->
+    ki = kj.
+Proof.
+  intros Hdet size t seed i j ex ops_i ops_j s_i s_j ki kj Hi Hj mi mj Ri Rj.
+  destruct (same_party_set size t seed i j ex ops_i ops_j s_i s_j Hi Hj) as [E [_ [Ek _]]].
+  fold mi mj in E, Ek. rewrite Ek, E in Ri. exact (Hdet _ _ _ _ Ri Rj).
+Qed.
+
+Lemma misbehaved_same size t seed_i seed_j i j ex ops_i ops_j s_i s_j :
+  memN i ex = false -> memN j ex = false ->
+  misbehaved (mb_group (execute_member size t seed_i i ex ops_i s_i))
+  = misbehaved (mb_group (execute_member size t seed_j j ex ops_j s_j)).
+Proof. intros Hi Hj. rewrite !execute_member_group by assumption. reflexivity. Qed.
+
+(* ------------------------------------------------------------------ admission *)
+Definition foreign (size : nat) (self : N) (ex ops : list N) (session : N) (m : msg) : Prop :=
+  m_sender m = self \/ ~ (1 <= m_sender m <= N.of_nat size) \/ In (m_sender m) ex
+  \/ nth_error ops (N.to_nat (m_sender m - 1)) <> Some (m_op m) \/ m_session m <> session.
+Definition deliver (mb : member) (h : history) (sm : N * msg) : history := receive mb h (snd sm).
+
+Lemma optN_dec (a b : option N) : {a = b} + {a <> b}.
+Proof. decide equality. apply N.eq_dec. Qed.
+
+Lemma accepts_not_foreign size t seed self ex ops s m :
+  (size <= 255)%nat ->
+  accepts (execute_member size t seed self ex ops s) m = true <-> ~ foreign size self ex ops s m.
+Proof.
+  intros Hs. rewrite accepts_iff by exact Hs. unfold foreign. split.
+  - intros (H1 & H2 & H3 & H4 & H5) [F|[F|[F|[F|F]]]]; [congruence | tauto | tauto | congruence | congruence].
+  - intros F. split; [|split; [|split; [|split]]].
+    + intros E. apply F. left. exact E.
+    + destruct (N.leb_spec 1 (m_sender m)); destruct (N.leb_spec (m_sender m) (N.of_nat size));
+        try lia; exfalso; apply F; right; left; lia.
+    + intros E. apply F. right. right. left. exact E.
+    + destruct (optN_dec (nth_error ops (N.to_nat (m_sender m - 1))) (Some (m_op m))) as [E|E];
+        [exact E | exfalso; apply F; tauto].
+    + destruct (N.eq_dec (m_session m) s) as [E|E]; [exact E | exfalso; apply F; tauto].
+Qed.
+
+Lemma receive_accepts mb h m : receive mb h m = if accepts mb m then h ++ [m] else h.
+Proof. reflexivity. Qed.
+
+Lemma deliver_fold mb dels : forall h0,
+  fold_left (deliver mb) dels h0 = h0 ++ filter (accepts mb) (map snd dels).
+Proof.
+  induction dels as [|[st m] dels IH]; intros h0; cbn [fold_left map filter].
+  - rewrite app_nil_r. reflexivity.
+  - rewrite IH. unfold deliver. cbn [snd]. rewrite receive_accepts.
+    destruct (accepts mb m); [rewrite <- app_assoc; reflexivity | reflexivity].
+Qed.
+
+Lemma foreign_never_stored size t seed self ex ops session :
+  (size <= 255)%nat ->
+  let mb := execute_member size t seed self ex ops session in
+  (forall h state m, foreign size self ex ops session m -> deliver mb h (state, m) = h)
+  /\ (forall (keep : N * msg -> bool) h0 dels,
+        (forall sm, In sm dels -> keep sm = false -> foreign size self ex ops session (snd sm)) ->
+        fold_left (deliver mb) dels h0 = fold_left (deliver mb) (filter keep dels) h0)
+  /\ (forall h0 dels m, In m (fold_left (deliver mb) dels h0) ->
+        In m h0 \/ (~ foreign size self ex ops session m /\ exists st, In (st, m) dels)).
+Proof.
+  intros Hs mb. split; [|split].
+  - intros h state m F. unfold deliver. cbn [snd]. rewrite receive_accepts.
+    destruct (accepts mb m) eqn:A; [|reflexivity].
+    exfalso. apply (accepts_not_foreign size t seed self ex ops session m Hs) in A. exact (A F).
+  - intros keep h0 dels H. rewrite !deliver_fold. f_equal.
+    induction dels as [|sm dels IH]; cbn [filter map]; [reflexivity|].
+    assert (Ht : forall sm0, In sm0 dels -> keep sm0 = false -> foreign size self ex ops session (snd sm0)).
+    { intros sm0 Hin. apply H. right. exact Hin. }
+    destruct (keep sm) eqn:Kp; cbn [map filter].
+    + rewrite (IH Ht). reflexivity.
+    + assert (A : accepts mb (snd sm) = false).
+      { destruct (accepts mb (snd sm)) eqn:A; [|reflexivity]. exfalso.
+        apply (accepts_not_foreign size t seed self ex ops session _ Hs) in A. apply A.
+        apply H; [left; reflexivity | exact Kp]. }
+      rewrite A. apply IH. exact Ht.
+  - intros h0 dels m. rewrite deliver_fold, in_app_iff, filter_In, in_map_iff.
+    intros [H|[[sm [E Hin]] A]]; [left; exact H | right]. split.
+    + apply (accepts_not_foreign size t seed self ex ops session m Hs). exact A.
+    + exists (fst sm). destruct sm as [st m']. cbn [fst snd] in *. subst m'. exact Hin.
+Qed.
+
+Lemma history_keeps size t seed self ex ops session :
+  (size <= 255)%nat ->
+  let mb := execute_member size t seed self ex ops session in
+  forall h0 state m later,
+    ~ foreign size self ex ops session m ->
+    let h := fold_left (deliver mb) later (deliver mb h0 (state, m)) in
+    In m (all_received h (m_kind m))
+    /\ In (m_sender m) (senders (received h (m_kind m)))
+    /\ NoDup (senders (received h (m_kind m))).
+Proof.
+  intros Hs mb h0 state m later F h.
+  apply (accepts_not_foreign size t seed self ex ops session m Hs) in F.
+  assert (Hin : In m h).
+  { unfold h. rewrite deliver_fold. unfold deliver. cbn [snd]. rewrite receive_accepts.
+    fold mb in F. rewrite F. rewrite !in_app_iff. left. right. left. reflexivity. }
+  split; [|split].
+  - unfold all_received. apply filter_In. split; [exact Hin | apply N.eqb_refl].
+  - apply received_covers; [exact Hin | reflexivity].
+  - apply received_nodup.
+Qed.
+
+(* ------------------------------------------------------------------ delivery order *)
+Lemma Permutation_filter' {A} (f : A -> bool) l l' :
+  Permutation l l' -> Permutation (filter f l) (filter f l').
+Proof.
+  induction 1 as [|x l l' H IH|x y l|l l' l'' H1 IH1 H2 IH2]; cbn [filter].
+  - constructor.
+  - destruct (f x); [constructor|]; exact IH.
+  - destruct (f x), (f y); try apply Permutation_refl. apply perm_swap.
+  - eapply Permutation_trans; eassumption.
+Qed.
+
+Lemma dedup_senders_iff l x : In x (senders (dedup [] l)) <-> In x (senders l).
+Proof.
+  split.
+  - intros H. unfold senders in *. apply in_map_iff in H. destruct H as [m [E Hm]].
+    apply dedup_incl in Hm. apply in_map_iff. exists m. auto.
+  - intros H. unfold senders in H. apply in_map_iff in H. destruct H as [m [E Hm]].
+    destruct (dedup_covers l [] m Hm) as [[]|H']. rewrite <- E. exact H'.
+Qed.
+
+Lemma dedup_length_perm l l' : Permutation l l' -> length (dedup [] l) = length (dedup [] l').
+Proof.
+  intros P.
+  rewrite <- (map_length m_sender (dedup [] l)), <- (map_length m_sender (dedup [] l')).
+  apply Permutation_length. apply NoDup_Permutation.
+  - apply (dedup_nodup l []).
+  - apply (dedup_nodup l' []).
+  - intros x. fold (senders (dedup [] l)) (senders (dedup [] l')).
+    rewrite !dedup_senders_iff. unfold senders.
+    split; apply Permutation_in; [|apply Permutation_sym]; apply Permutation_map; exact P.
+Qed.
+
+Lemma can_transition_ext mb h h' s :
+  (forall k, length (received h k) = length (received h' k)) ->
+  can_transition mb h s = can_transition mb h' s.
+Proof.
+  intros H. unfold can_transition. destruct (state_kind s) as [k|]; [rewrite (H k)|]; reflexivity.
+Qed.
+
+Lemma order_irrelevant mb dels dels' s :
+  Permutation dels dels' ->
+  Permutation (fold_left (deliver mb) dels []) (fold_left (deliver mb) dels' [])
+  /\ can_transition mb (fold_left (deliver mb) dels []) s
+     = can_transition mb (fold_left (deliver mb) dels' []) s.
+Proof.
+  intros P. rewrite !deliver_fold. cbn [app].
+  assert (P' : Permutation (filter (accepts mb) (map snd dels)) (filter (accepts mb) (map snd dels'))).
+  { apply Permutation_filter', Permutation_map, P. }
+  split; [exact P'|]. apply can_transition_ext. intros k. unfold received, all_received.
+  apply dedup_length_perm, Permutation_filter', P'.
+Qed.
+
+(* ================================================================== executable property *)
+Lemma list_eqb_eq {A} (eqb : A -> A -> bool) :
+  (forall x y, eqb x y = true -> x = y) -> forall a b, list_eqb eqb a b = true -> a = b.
+Proof.
+  intros He. induction a as [|x a IH]; intros [|y b]; cbn [list_eqb]; try discriminate; [reflexivity|].
+  intros H. apply andb_true_iff in H. destruct H as [H1 H2]. f_equal; [apply He, H1 | apply IH, H2].
+Qed.
+Lemma listN_eqb_eq a b : list_eqb N.eqb a b = true -> a = b.
+Proof. apply list_eqb_eq. intros x y. apply N.eqb_eq. Qed.
+Lemma listZ_eqb_eq a b : list_eqb Z.eqb a b = true -> a = b.
+Proof. apply list_eqb_eq. intros x y. apply Z.eqb_eq. Qed.
+Lemma listlistN_eqb_eq a b : list_eqb (list_eqb N.eqb) a b = true -> a = b.
+Proof. apply list_eqb_eq. exact listN_eqb_eq. Qed.
+
+Lemma memZ_In x l : memZ x l = true <-> In x l.
+Proof.
+  unfold memZ. rewrite existsb_exists. split.
+  - intros [y [H1 H2]]. apply Z.eqb_eq in H2. subst. exact H1.
+  - intros H. exists x. split; [exact H | apply Z.eqb_refl].
+Qed.
+
+Lemma sublistN_weaken b : forall a, sublistN a b = true ->
+  (forall x a', a = x :: a' -> sublistN a' b = true) /\ (forall y, sublistN a (y :: b) = true).
+Proof.
+  induction b as [|z b IH]; intros a H.
+  - destruct a as [|x a]; [|discriminate]. split; [intros; discriminate | reflexivity].
+  - assert (T : forall x a', a = x :: a' -> sublistN a' (z :: b) = true).
+    { intros x a' ->. cbn [sublistN] in H. destruct (N.eqb x z).
+      - apply (IH a' H).
+      - apply (IH a'). apply (proj1 (IH _ H) x a' eq_refl). }
+    split; [exact T|]. intros y. destruct a as [|x a]; [reflexivity|].
+    cbn [sublistN]. destruct (N.eqb x y); [apply (T x a eq_refl) | exact H].
+Qed.
+Lemma sublistN_cons_r a b y : sublistN a b = true -> sublistN a (y :: b) = true.
+Proof. intros H. apply (sublistN_weaken b a H). Qed.
+Lemma sublistN_refl a : sublistN a a = true.
+Proof. induction a as [|x a IH]; [reflexivity|]. cbn [sublistN]. rewrite N.eqb_refl. exact IH. Qed.
+Lemma sublistN_In a : forall b, sublistN a b = true -> forall x, In x a -> In x b.
+Proof.
+  induction a as [|y a IH]; intros b H x Hx; [destruct Hx|].
+  induction b as [|z b IHb]; [discriminate|]. cbn [sublistN] in H.
+  destruct (N.eqb y z) eqn:E.
+  - apply N.eqb_eq in E. subst z. destruct Hx as [<-|Hx]; [left; reflexivity | right; apply (IH b H x Hx)].
+  - right. apply IHb. exact H.
+Qed.
+Lemma nodupb_NoDup l : nodupb l = true <-> NoDup l.
+Proof.
+  induction l as [|x l IH]; cbn [nodupb].
+  - split; [constructor | reflexivity].
+  - rewrite andb_true_iff, negb_true_iff, memN_false, IH. split.
+    + intros [H1 H2]. constructor; assumption.
+    + intros H. inversion H; subst. auto.
+Qed.
+Lemma subsetN_incl a b : subsetN a b = true <-> (forall x, In x a -> In x b).
+Proof.
+  unfold subsetN. rewrite forallb_forall. split; intros H x Hx.
+  - apply memN_In, H, Hx.
+  - apply memN_In, H, Hx.
+Qed.
+
+Lemma In_kinds k : k < 6 <-> In k kinds.
+Proof. cbn. lia. Qed.
+
+Lemma legit_spec c m :
+  legit c m = true <->
+  (m_sender m <> p_self c /\ 1 <= m_sender m <= p_size c
+   /\ ~ In (m_sender m) (p_dq c) /\ ~ In (m_sender m) (p_ia c)
+   /\ nth_error (p_ops c) (N.to_nat (m_sender m - 1)) = Some (m_op m)
+   /\ m_session m = p_session c).
+Proof.
+  unfold legit. rewrite !andb_true_iff, !negb_true_iff, N.eqb_neq, !N.leb_le, !memN_false, N.eqb_eq.
+  destruct (nth_error (p_ops c) (N.to_nat (m_sender m - 1))) as [o|].
+  - rewrite N.eqb_eq. split.
+    + intros [[[[[[H1 H2] H3] H4] H5] H6] H7]. subst o. auto 10.
+    + intros (H1 & [H2 H3] & H4 & H5 & H6 & H7). inversion H6. auto 10.
+  - split.
+    + intros [[_ H] _]. discriminate.
+    + intros (_ & _ & _ & _ & H & _). discriminate.
+Qed.
+
+Lemma spec_probe_sound c : spec_probe c = true ->
+  forall k, k < 6 ->
+    let hk := nth (N.to_nat k) (o_history c) [] in
+    let rk := nth (N.to_nat k) (o_received c) [] in
+    (forall x, In x hk -> exists st m, In (st, m) (p_msgs c) /\ m_sender m = x /\ m_kind m = k
+        /\ m_sender m <> p_self c /\ 1 <= m_sender m <= p_size c
+        /\ ~ In (m_sender m) (p_dq c) /\ ~ In (m_sender m) (p_ia c)
+        /\ nth_error (p_ops c) (N.to_nat (m_sender m - 1)) = Some (m_op m)
+        /\ m_session m = p_session c)
+    /\ NoDup rk /\ (forall x, In x rk <-> In x hk).
+Proof.
+  intros H k Hk hk rk. unfold spec_probe in H. rewrite !andb_true_iff in H.
+  destruct H as [_ H]. rewrite forallb_forall in H. specialize (H k (proj1 (In_kinds k) Hk)).
+  fold hk rk in H. rewrite !andb_true_iff in H. destruct H as [[[H1 H2] H3] H4].
+  split; [|split].
+  - intros x Hx. apply (sublistN_In _ _ H1) in Hx. unfold senders in Hx.
+    apply in_map_iff in Hx. destruct Hx as [m [E Hm]]. apply filter_In in Hm.
+    destruct Hm as [Hm Hb]. apply andb_true_iff in Hb. destruct Hb as [Hb1 Hb2].
+    apply N.eqb_eq in Hb1. apply legit_spec in Hb2. apply in_map_iff in Hm.
+    destruct Hm as [[st m'] [E' Hm]]. cbn [snd] in E'. subst m'.
+    exists st, m. tauto.
+  - apply nodupb_NoDup. exact H2.
+  - intros x. split.
+    + apply sublistN_In. exact H3.
+    + apply subsetN_incl. exact H4.
+Qed.
+
+Lemma spec_run_sound c : spec_run c = true ->
+  forall o1 o2, In o1 (r_obs c) -> In o2 (r_obs c) -> is_done o1 = true -> is_done o2 = true ->
+    mo_key o1 = mo_key o2 /\ mo_mis o1 = mo_mis o2 /\ mo_ks o1 = mo_ks o2
+    /\ (forall e, In e (r_excluded c) -> 1 <= e <= r_size c ->
+          In e (mo_mis o1) /\ ~ In (party_key (r_seed c) e) (mo_ks o1))
+    /\ mo_share o1 = party_key (r_seed c) (mo_member o1) /\ In (mo_share o1) (mo_ks o2).
+Proof.
+  intros H o1 o2 I1 I2 D1 D2. unfold spec_run in H. rewrite !andb_true_iff in H.
+  destruct H as [_ H].
+  assert (F1 : In o1 (filter is_done (r_obs c))) by (apply filter_In; auto).
+  assert (F2 : In o2 (filter is_done (r_obs c))) by (apply filter_In; auto).
+  destruct (filter is_done (r_obs c)) as [|o0 rest] eqn:Dn; [destruct F1|].
+  rewrite forallb_forall in H.
+  assert (G : forall o, In o (o0 :: rest) ->
+     mo_key o = mo_key o0 /\ mo_mis o = mo_mis o0 /\ mo_ks o = mo_ks o0
+     /\ (forall e, In e (r_excluded c) -> 1 <= e <= r_size c ->
+           In e (mo_mis o) /\ ~ In (party_key (r_seed c) e) (mo_ks o))
+     /\ mo_share o = party_key (r_seed c) (mo_member o) /\ In (mo_share o) (mo_ks o0)).
+  { intros o Ho. specialize (H o Ho). rewrite !andb_true_iff in H.
+    destruct H as [[[[[Ha Hb] Hc] Hd] He] Hf].
+    apply N.eqb_eq in Ha. apply listN_eqb_eq in Hb. apply listZ_eqb_eq in Hc.
+    apply Z.eqb_eq in He. apply memZ_In in Hf. repeat split; try assumption.
+    - rewrite forallb_forall in Hd. specialize (Hd e H). unfold in_group in Hd.
+      apply orb_true_iff in Hd. destruct Hd as [Hd|Hd].
+      + apply negb_true_iff, andb_false_iff in Hd. destruct Hd as [Hd|Hd]; apply N.leb_gt in Hd; lia.
+      + apply andb_true_iff in Hd. apply memN_In, Hd.
+    - rewrite forallb_forall in Hd. specialize (Hd e H). unfold in_group in Hd.
+      apply orb_true_iff in Hd. destruct Hd as [Hd|Hd].
+      + apply negb_true_iff, andb_false_iff in Hd. destruct Hd as [Hd|Hd]; apply N.leb_gt in Hd; lia.
+      + apply andb_true_iff in Hd. destruct Hd as [_ Hd]. apply negb_true_iff in Hd.
+        intros Hin. apply memZ_In in Hin. congruence. }
+  destruct (G o1 F1) as (A1 & B1 & C1 & E1 & S1 & M1).
+  destruct (G o2 F2) as (A2 & B2 & C2 & _ & _ & _).
+  repeat split; try congruence; apply E1; assumption.
+Qed.
+
+(* ------------------------------------------------------------------ model outputs satisfy it *)
+Lemma mark_ia_members g e : g_members (mark_ia g e) = g_members g.
+Proof. unfold mark_ia. destruct (is_operating g e); reflexivity. Qed.
+Lemma is_operating_mark_ia g e m :
+  is_operating (mark_ia g e) m = is_operating g m && negb (N.eqb m e).
+Proof.
+  unfold mark_ia. destruct (is_operating g e) eqn:He.
+  - unfold is_operating. cbn [g_members g_ia g_dq]. rewrite memN_app, memN_cons.
+    replace (memN m []) with false by reflexivity. rewrite orb_false_r.
+    destruct (memN m (g_members g)), (memN m (g_ia g)), (memN m (g_dq g)), (N.eqb m e);
+      reflexivity.
+  - destruct (N.eqb m e) eqn:E.
+    + apply N.eqb_eq in E. subst. rewrite He. reflexivity.
+    + rewrite andb_true_r. reflexivity.
+Qed.
+Lemma is_operating_fold_mark_ia l g m :
+  is_operating (fold_left mark_ia l g) m = is_operating g m && negb (memN m l).
+Proof.
+  revert g. induction l as [|e l IH]; intros g; cbn [fold_left].
+  - cbn. rewrite andb_true_r. reflexivity.
+  - rewrite IH, is_operating_mark_ia, memN_cons.
+    destruct (is_operating g m), (N.eqb m e), (memN m l); reflexivity.
+Qed.
+
+Lemma mod_index s : 1 <= s <= 255 -> (s + 255) mod 256 = s - 1.
+Proof.
+  intros H. assert (s + 255 = (s - 1) + 1 * 256) as -> by lia.
+  rewrite N.mod_add by lia. apply N.mod_small. lia.
+Qed.
+
+Lemma accepts_probe_legit c m :
+  p_size c < 256 -> length (p_ops c) = N.to_nat (p_size c) ->
+  accepts (probe_member c) m = legit c m.
+Proof.
+  intros Hs Hl. apply eq_true_iff_eq. rewrite legit_spec.
+  unfold accepts, should_accept, probe_member. cbn [mb_id mb_ops mb_group mb_session].
+  rewrite is_operating_fold_mark_ia, is_operating_fold_mark_dq, is_operating_new.
+  rewrite members_small by lia.
+  rewrite !andb_true_iff, !negb_true_iff, N.eqb_neq, N.eqb_eq, valid_membership_spec,
+    memN_In, In_range, !memN_false, N2Nat.id.
+  split.
+  - intros [[[H1 H2] [[H3 H4] H5]] H6]. rewrite mod_index in H2 by lia. auto 10.
+  - intros (H1 & H2 & H3 & H4 & H5 & H6). rewrite mod_index by lia. auto 10.
+Qed.
+
+Lemma filter_filter {A} (f g : A -> bool) l :
+  filter f (filter g l) = filter (fun x => f x && g x) l.
+Proof.
+  induction l as [|x l IH]; [reflexivity|]. cbn [filter].
+  destruct (g x); cbn [filter]; rewrite ?andb_true_r, ?andb_false_r; [destruct (f x)|]; rewrite IH; reflexivity.
+Qed.
+
+Lemma dedup_sublist l : forall seen, sublistN (senders (dedup seen l)) (senders l) = true.
+Proof.
+  induction l as [|m l IH]; intros seen; [reflexivity|]. cbn [dedup].
+  destruct (memN (m_sender m) seen).
+  - unfold senders. cbn [map]. apply sublistN_cons_r. apply IH.
+  - unfold senders. cbn [map sublistN]. rewrite N.eqb_refl. apply IH.
+Qed.
+
+Lemma nth_kinds {B} (F : N -> B) d k : In k kinds -> nth (N.to_nat k) (map F kinds) d = F k.
+Proof. cbn. intros [<-|[<-|[<-|[<-|[<-|[<-|[]]]]]]]; reflexivity. Qed.
+
+Lemma model_spec_probe c :
+  p_size c < 256 -> length (p_ops c) = N.to_nat (p_size c) ->
+  agree_probe c = true -> spec_probe c = true.
+Proof.
+  intros Hs Hl H. unfold agree_probe in H. rewrite !andb_true_iff in H.
+  destruct H as [[[[_ Hh] Hr] _] _]. clear - Hs Hl Hh Hr.
+  apply listlistN_eqb_eq in Hh, Hr.
+  unfold spec_probe. rewrite Hh, Hr. rewrite !map_length.
+  rewrite !andb_true_iff. split; [split; [split|]|]; try reflexivity.
+  - apply N.ltb_lt. exact Hs.
+  - apply forallb_forall. intros k Hk. rewrite !nth_kinds by exact Hk.
+    set (mb := probe_member c). set (l := map snd (p_msgs c)).
+    assert (Eh : receive_all mb [] l = filter (accepts mb) l) by (rewrite receive_all_filter; reflexivity).
+    rewrite Eh. rewrite !andb_true_iff. split; [split; [split|]|].
+    + unfold all_received. rewrite filter_filter.
+      rewrite (filter_ext _ (fun m => N.eqb (m_kind m) k && legit c m)).
+      * apply sublistN_refl.
+      * intros m. unfold mb. rewrite accepts_probe_legit by assumption. reflexivity.
+    + apply nodupb_NoDup. apply received_nodup.
+    + apply dedup_sublist.
+    + apply subsetN_incl. intros x Hx. unfold received. apply dedup_senders_iff. exact Hx.
+Qed.
+
+Lemma party_key_inj seed a b : party_key seed a = party_key seed b -> a = b.
+Proof. unfold party_key. lia. Qed.
+
+Lemma model_spec_run (keyid : list Z -> N) c :
+  r_size c < 256 -> (0 <= r_seed c)%Z ->
+  (forall o, In o (r_obs c) ->
+     1 <= mo_member o <= r_size c /\ ~ In (mo_member o) (r_excluded c)
+     /\ finished_ok o = true /\ mo_key o = keyid (mo_ks o)) ->
+  agree_run c = true -> spec_run c = true.
+Proof.
+  intros Hs Hseed Hobs Ha. unfold agree_run in Ha. rewrite forallb_forall in Ha.
+  set (size := N.to_nat (r_size c)) in *.
+  assert (Hsz : (size <= 255)%nat) by (unfold size; lia).
+  assert (Hsz' : N.of_nat size = r_size c) by (unfold size; lia).
+  (* what a finished observation looks like *)
+  assert (G : forall o, In o (r_obs c) -> is_done o = true ->
+     mo_ks o = map (party_key (r_seed c)) (not_excluded size (r_excluded c))
+     /\ mo_mis o = misbehaved (fold_left mark_dq (r_excluded c) (new_group (r_t c) size))
+     /\ mo_share o = party_key (r_seed c) (mo_member o)
+     /\ In (mo_share o) (mo_ks o)).
+  { intros o Ho Hd. specialize (Ha o Ho). rewrite Hd in Ha. cbn [negb orb] in Ha.
+    destruct (Hobs o Ho) as (Hr & Hne & _ & _). apply memN_false in Hne.
+    destruct (party_set_exact size (r_t c) (r_seed c) (mo_member o) (r_excluded c) [] 0 Hsz Hne)
+      as (_ & Ek & _ & Hown).
+    rewrite Hsz' in Hown. destruct (Hown Hr) as [Hown1 Hown2].
+    rewrite !andb_true_iff in Ha. destruct Ha as [[A1 A2] A3].
+    apply listZ_eqb_eq in A1. apply listN_eqb_eq in A2.
+    rewrite Hown1 in A3. cbn [optZ_eqb] in A3. apply Z.eqb_eq in A3.
+    rewrite Ek in A1. rewrite execute_member_group in A2 by exact Hne.
+    repeat split; try assumption. rewrite A3, A1, <- Ek. exact Hown2. }
+  unfold spec_run. rewrite !andb_true_iff. split; [split; [split|]|].
+  - apply N.ltb_lt. exact Hs.
+  - apply Z.leb_le. exact Hseed.
+  - apply forallb_forall. intros o Ho. destruct (Hobs o Ho) as (Hr & Hne & Hf & _).
+    unfold in_group. rewrite !andb_true_iff, negb_true_iff, !N.leb_le, memN_false. tauto.
+  - destruct (filter is_done (r_obs c)) as [|o0 rest] eqn:Dn; [reflexivity|].
+    assert (I0 : In o0 (r_obs c) /\ is_done o0 = true).
+    { apply filter_In. rewrite Dn. left. reflexivity. }
+    destruct (G o0 (proj1 I0) (proj2 I0)) as (K0 & M0 & S0 & P0).
+    apply forallb_forall. intros o Ho. rewrite <- Dn in Ho. apply filter_In in Ho.
+    destruct Ho as [Ho Hd]. destruct (G o Ho Hd) as (K & M & S & P).
+    destruct (Hobs o Ho) as (Hr & Hne & _ & Hk). destruct (Hobs o0 (proj1 I0)) as (_ & _ & _ & Hk0).
+    apply memN_false in Hne.
+    rewrite !andb_true_iff. repeat split.
+    + apply N.eqb_eq. rewrite Hk, Hk0, K, K0. reflexivity.
+    + rewrite M, M0. clear. induction (misbehaved _) as [|x l IH]; [reflexivity|].
+      cbn [list_eqb]. rewrite N.eqb_refl. exact IH.
+    + rewrite K, K0. clear. induction (map _ _) as [|x l IH]; [reflexivity|].
+      cbn [list_eqb]. rewrite Z.eqb_refl. exact IH.
+    + apply forallb_forall. intros e He. unfold in_group.
+      destruct (N.leb 1 e && N.leb e (r_size c)) eqn:Eg; [|reflexivity]. cbn [negb orb].
+      apply andb_true_iff in Eg. destruct Eg as [Eg1 Eg2]. apply N.leb_le in Eg1, Eg2.
+      rewrite andb_true_iff, negb_true_iff. split.
+      * apply memN_In. rewrite M.
+        destruct (excluded_listed size (r_t c) (r_seed c) (mo_member o) (r_excluded c) [] 0 Hsz Hne) as [_ Hx].
+        rewrite execute_member_group in Hx by exact Hne. apply Hx. split; [exact He | lia].
+      * destruct (memZ (party_key (r_seed c) e) (mo_ks o)) eqn:Em; [|reflexivity]. exfalso.
+        apply memZ_In in Em. rewrite K in Em. apply in_map_iff in Em. destruct Em as [m [E Hm]].
+        apply party_key_inj in E. subst m. apply filter_In in Hm. destruct Hm as [_ Hm].
+        apply negb_true_iff, memN_false in Hm. exact (Hm He).
+    + apply Z.eqb_eq. exact S.
+    + apply memZ_In. rewrite K0, <- K. exact P.
+Qed.
 
 (* hypotheses are satisfiable: a 3-of-5 group, member 1, member 3 excluded *)
 Example example_member :
